@@ -260,9 +260,11 @@ struct ModelRun
     bool shadow_obs_valid{false};
     bool compare_excluded{false}; // set by the caller when the statement excludes this op's result from the comparison
 
+    const uint64_t* value_override{nullptr}; // set by do_insert for same-value writes
+
     Outcome main_exec(const Op& o)
     {
-        Outcome r = x.exec(*box, o, step);
+        Outcome r = x.exec(*box, o, step, value_override);
         if (!shadow)
             return r;
         shadow_called = true;
@@ -335,7 +337,7 @@ struct ModelRun
             return r;
         }
         const size_t sb0 = shadow->size();
-        Outcome      rb  = x.exec(*shadow, o, step);
+        Outcome      rb  = x.exec(*shadow, o, step, value_override);
         const bool f8_range = twin_mode == "twin-range" && M.utx() && x.c.cfg.ttl_ms == 0 && !x.opt.strict_f8;
         if ((twin_mode == "twin-noop" && M.ttl_kind()) || f8_range)
         {
@@ -411,7 +413,8 @@ struct ModelRun
             if (M.utx() && after_call)
             {
                 // C17: the purge at the start of the call removed everything that was expired then
-                if (s != nl + static_cast<size_t>(doa_now))
+                // (an entry written dead by this very call may or may not be kept: an interval, not an equality)
+                if (s < nl || s > nl + static_cast<size_t>(doa_now))
                     x.fail(step, "C17,C02", "utx_purge_at_call_start",
                            "size()=" + std::to_string(s) + " live=" + std::to_string(nl) + " written-dead-by-this-call=" + std::to_string(doa_now));
                 if (s != nl)
@@ -682,11 +685,17 @@ struct ModelRun
         const size_t     s0 = box->size();
         std::vector<int> L0 = live_keys();
         const int64_t    ttl = o.ttl_ms;
-        const uint64_t   v   = value_for(o.k, step, 0);
         const bool       k_live = M.live.count(o.k) != 0, k_zombie = M.Z.count(o.k) != 0;
+        // a write may repeat the value the key already holds (code that compares old and new value)
+        const bool       same_value = o.same && k_live && !x.caps.is_set;
+        const uint64_t   v   = same_value ? M.live.at(o.k).val : value_for(o.k, step, 0);
+        if (same_value)
+            x.label("writes_of_the_same_value");
         const size_t     nz0 = s0 >= L0.size() ? s0 - L0.size() : 0;
 
+        value_override = same_value ? &v : nullptr;
         const bool r  = main_exec(o).b;
+        value_override = nullptr;
         const Obs  ob1 = observe();
         const size_t s1 = ob1.s;
 
@@ -1151,6 +1160,20 @@ struct ModelRun
         invariants(true, ob1);
     }
 
+    void do_lookup(const Op& o)
+    {
+        if (o.code == cs::O_FINDR || o.code == cs::O_FINDRF)
+        {
+            do_find_range(o);
+            return;
+        }
+        M.call_start_purge();
+        Outcome   r   = main_exec(o);
+        const Obs ob1 = observe();
+        lookup_rule(o.k, x.caps.has_peek ? o.peek : false, r.hit, r.v, o.code == cs::O_FINDUC, r.uc, cs::op_name(o.code), 2);
+        invariants(true, ob1);
+    }
+
     // ---- clock -------------------------------------------------------------------------------------
     void after_clock_move()
     {
@@ -1322,16 +1345,30 @@ struct ModelRun
                 case cs::O_ERAR: do_erase_range(o); break;
                 case cs::O_FIND:
                 case cs::O_FINDUC:
+                case cs::O_FINDR:
+                case cs::O_FINDRF: do_lookup(o); break;
+                case cs::O_REP:
                 {
-                    M.call_start_purge();
-                    Outcome   r   = main_exec(o);
-                    const Obs ob1 = observe();
-                    lookup_rule(o.k, x.caps.has_peek ? o.peek : false, r.hit, r.v, o.code == cs::O_FINDUC, r.uc, cs::op_name(o.code), 2);
-                    invariants(true, ob1);
+                    // repeat the previous m lookup operations n more times at a frozen clock (no scans in between)
+                    std::vector<const Op*> blk;
+                    for (int i = step - 1; i >= 0 && blk.size() < static_cast<size_t>(1 + o.j % 3); --i)
+                    {
+                        const Op& q = x.c.ops[static_cast<size_t>(i)];
+                        if (q.splice || !x.supported(q))
+                            continue;
+                        if (q.code == cs::O_FIND || q.code == cs::O_FINDUC || q.code == cs::O_FINDR || q.code == cs::O_FINDRF)
+                            blk.insert(blk.begin(), &q);
+                    }
+                    if (blk.empty())
+                        continue;
+                    const int64_t n = o.ttl_ms < 1 ? 1 : o.ttl_ms;
+                    for (int64_t it = 0; it < n; ++it)
+                        for (const Op* q : blk)
+                            do_lookup(*q);
+                    x.label("repeat_blocks");
+                    x.label("repeated_lookups", static_cast<long>(n * static_cast<int64_t>(blk.size())));
                     break;
                 }
-                case cs::O_FINDR:
-                case cs::O_FINDRF: do_find_range(o); break;
                 case cs::O_CLEAN:
                 {
                     const size_t s0 = box->size();
@@ -1480,6 +1517,7 @@ Result run_model(const cs::Case& c, const Options& opt)
 {
     Ctx x(c, opt);
     vt::reset(c.cfg.seed);
+    vv::key_mode().store(c.cfg.kmode);
     const long base_live = vv::tracked_stats::live().load();
     try
     {
@@ -1530,7 +1568,7 @@ Result run_stats_rr(const cs::Case& c, const Options& opt); // twin.cpp
 
 Result run_case(const cs::Case& c, const Options& opt)
 {
-    if (opt.mode == "stats-rr")
+    if (opt.mode == "stats-rr" || opt.mode == "stats-rr-mass")
         return run_stats_rr(c, opt);
     return run_model(c, opt);
 }
